@@ -417,8 +417,9 @@ func isMapType(t types.Type) bool { _, ok := t.Underlying().(*types.Map); return
 // under the renamed rule ids, the current check's own descriptive texts are kept.
 func runShared(c *Ctx, from, to string, rules func(c *Ctx)) {
 	rt, ex, as := c.R.RuleText, c.R.Explain, c.R.Assume
+	prev := c.R.Rename
 	c.R.Rename = map[string]string{from: to}
 	rules(c)
-	c.R.Rename = nil
+	c.R.Rename = prev
 	c.R.RuleText, c.R.Explain, c.R.Assume = rt, ex, as
 }
